@@ -199,6 +199,8 @@ def layout_family(ctx, rng) -> list:
         for mode, q, tmpl in combos:
             if mode == "odvod" and info["enc"]:
                 continue
+            if info["enc"] and tmpl == "manifest_a.mpd":
+                tmpl, q = "hand_made.mpd", dict(q, timeline="1")     # manifest_a is restricted to drm=none
             q = dict(q, **(dq if mode != "odvod" else {}))
             if tmpl == "manifest_vod_aiv.mpd":
                 q.pop("drm", None)
@@ -1296,7 +1298,9 @@ def matches_finding(finding, failure):
         return case.get("stream") in region["stream"] and case.get("mode") == region["mode"] and \
             not q.get("timeline") and case.get("template") != "manifest_a.mpd"
     if "stream" in region:
-        return case.get("stream") in region["stream"]
+        return case.get("stream") in region["stream"] and \
+            case.get("mode") in region.get("modes", [case.get("mode")]) and \
+            case.get("template") in region.get("templates", [case.get("template")])
     if "depth_below" in region:
         return case.get("mode") == "live" and "depth" in q and int(q["depth"]) < region["depth_below"]
     if "vod_duration_above" in region:
